@@ -32,6 +32,7 @@ def atoms_for(r):
         # text is ordered too (lexicographically): `not (name > 'b')` is `name <= 'b'`
         "name > 'b'", "name <= 'a9'", "name >= 'b1'", "name < 'adir'", "ext >= 'rs'", "ext < 'txt'",
         "name between 'a5' and 'b2'", "name not between 'a5' and 'b2'",
+        "name =~ 'a.c'", "name like 'a.c'", "name = 'a?c'", "name like 'a?c'", "name =~ 'a?c'", "name not like 'a.c'", "name !=~ 'a.c'",
         "length(name) >= 2", "length(name) <= 11", "length(name) between 3 and 12", "length(name) not between 3 and 12", "size * 2 >= 20", "size * 2 < 100",
         # pattern operators match the text of a value of any type
         "size like '1%'", "size not like '1%'", "hardlinks =~ '^1$'", "size !=~ '^1'", "is_dir like 'f%'", "is_dir not like 'f%'",
@@ -56,6 +57,9 @@ def tree():
     ents.append({"path": "bdir.txt", "kind": "d", "mode": 0o700, "mtime": day + 86400})
     ents.append({"path": "adir/a1.txt", "kind": "f", "size": 10, "mode": 0o644, "mtime": day})
     ents.append({"path": "adir/hl", "kind": "f", "size": 11, "mode": 0o644, "mtime": day - 1})
+    # names on which one literal text reads differently under regex, LIKE and glob
+    for k, nm in enumerate(["a.c", "abc", "a-c", "xa.cy", "a?c", "ac"]):
+        ents.append({"path": nm, "kind": "f", "size": [5, 9, 10, 11, 100, 0][k], "mode": 0o644, "mtime": day + k})
     # names of 10 to 14 characters next to the short ones: as text "7" > "11", as numbers 7 < 11
     for k, nm in enumerate(["abcdefghij", "abcdefghijk", "abcdefghijkl.t", "b-long-name-1"]):
         ents.append({"path": nm, "kind": "f", "size": [9, 10, 11, 100][k], "mode": 0o644, "mtime": day + k})
@@ -151,6 +155,11 @@ def run(ctx):
                 atoms = ["length(name) >= 2", "length(name) <= 11", "size > 10"]
             if rd == 3:
                 atoms = ["length(name) between 3 and 12", "length(name) > 9", "length(name) != 6"]
+            if rd == 4:
+                # the same literal text under different pattern operators in one formula: each atom keeps its own reading
+                atoms = ["name =~ 'a.c'", "name like 'a.c'", "name = 'a?c'"]
+            if rd == 5:
+                atoms = ["name like 'a?c'", "name = 'a?c'", "name =~ 'a?c'"]
             sets = []
             ok = True
             for a in atoms:
